@@ -80,6 +80,8 @@ def compute(entry, mats, repbox=3, ctx=None, use_cache=True):
         ctx.states += res.distinct
         ctx.transitions += res.generated
         ctx.tlc_runs.append(dict(module="SpringsDump", cfg="(generated)", entry=entry, **res.summary()))
-    with open(cpath, "w") as f:
+    tmp = cpath + ".tmp%d" % os.getpid()
+    with open(tmp, "w") as f:
         json.dump(out, f)
+    os.replace(tmp, cpath)
     return out
